@@ -19,7 +19,7 @@ RULE = ('Each case builds an input and a transformed copy with the real ska and 
 ASSUMPTIONS = ['both builds are runs of the same binary; equality of the decoded tables is the oracle',
                'the input generators are those of C01 (record lengths around k, N runs, repeats, palindromes)']
 TRANSFORMS = ['rc', 'perm', 'case', 'wrap', 'gzip', 'sampleperm', 'all']
-REQUIRED = {t: ['tr:' + x for x in TRANSFORMS] + ['many_sample_cases', 'fastq_cases'] for t in ('quick', 'thorough')}
+REQUIRED = {t: ['tr:' + x for x in TRANSFORMS] + ['many_sample_cases', 'fastq_cases', 'sample_given_twice_side_by_side'] for t in ('quick', 'thorough')}
 
 
 def builds(tier):
@@ -209,9 +209,18 @@ def run_case(desc, ctx):
         d2['seed'] ^= 0x77
         samples = samples + c01.gen_records(d2)
     rng = random.Random(desc['seed'] ^ 0xc02)
+    dup_at = None
+    if tr in ('sampleperm', 'all') and desc['kind'] != 'many' and len(samples) >= 2 and desc['seed'] % 5 == 0:
+        # one sample given twice, side by side: still one column per input position
+        j_ = rng.randrange(len(samples))
+        samples = samples[:j_ + 1] + [list(samples[j_])] + samples[j_ + 1:]
+        dup_at = j_ + 1
+        res.count('sample_given_twice_side_by_side')
     res.count('tr:' + tr)
     res.see('k_rc', '%d/%s' % (k, 'rc' if rcmode else 'ss'))
     base_files = [G.write_fa(ctx.path('s%d.fa' % i), recs) for i, recs in enumerate(samples)]
+    if dup_at is not None:
+        base_files[dup_at] = base_files[dup_at - 1]          # literally the same path twice in a row
     tsamples, wrap, gz, perm = transform(rng, samples, tr, rcmode)
     t_files = [G.write_fa(ctx.path('t%d.fa' % i + ('.gz' if gz else '')), recs, wrap=wrap, gz=gz)
                for i, recs in enumerate(tsamples)]
